@@ -140,7 +140,17 @@ def h_initiator(n_ts, mode_conf, notify_kind, sit='new'):
     req = p.to_state('A', 'NEW_CHILD_REQ_SENT' if sit == 'new' else 'REK_CHILD_REQ_SENT')
     a = p.a
     offered_i, offered_r = list(a.creating_child_sa.tsi), list(a.creating_child_sa.tsr)
+    old_b = p.b.child_sas[0] if p.b.child_sas else None
     res = p.send('B', req)
+    if sit == 'rekey_deleted':
+        # the peer's DELETE of the very CHILD_SA being rekeyed (its hard lifetime ran out) overtakes the rekey answer: the replaced SA is gone from
+        # the table when the answer is processed - the answer is still the answer to a REKEY of that SA
+        dreq = p.B.call(p.b.process_expire, old_b.inbound_spi, True)
+        if dreq is None:
+            return ['initiator', 'n/a']
+        p.send('A', dreq)
+        if a.state.name != 'REK_CHILD_REQ_SENT':
+            return ['initiator', 'n/a']
     real_res = m.Message.parse(bytes(res), crypto=a.peer_crypto)
     tsis = [_sel(eng, f'tsi{i}', 7, 6) for i in range(n_ts)]
     tsrs = [_sel(eng, f'tsr{i}', 7, 6) for i in range(n_ts)]
@@ -180,7 +190,7 @@ def h_initiator(n_ts, mode_conf, notify_kind, sit='new'):
     off_r = [(int(t.ts_type), int(t.ip_proto), t.start_port, t.end_port, int(t.start_addr), int(t.end_addr)) for t in offered_r]
     inside = lambda f, offs: core.sym_or(*[core.sym_not(core.sym_and(_in(f, _witness(f, o)), core.sym_not(_in(o, _witness(f, o))))) for o in offs])
     eng.prove(core.sym_and(inside(fi, off_i), inside(fr, off_r)), 'selectors wider than what the initiator offered reached the kernel (a widened response was installed)')
-    if sit == 'rekey':
+    if sit in ('rekey', 'rekey_deleted'):
         # for a rekey the selectors equal those of the replaced CHILD_SA (which are the only ones offered)
         same = lambda f, o: core.sym_and(f[1] == o[1], f[2] == o[2], f[3] == o[3], f[4] == o[4], f[5] == o[5])
         eng.prove(core.sym_and(same(fi, off_i[0]), same(fr, off_r[0])), 'the CHILD_SA installed by a rekey has other selectors than the CHILD_SA it replaces (a narrowed response was installed)')
@@ -491,6 +501,9 @@ def build_instances(tier):
                 if n == 1 and nk == 'keep':
                     inst.append(Instance(f'initiator rekey response |TS|={n} mode={mode_conf} notify={nk}', h_initiator, (n, mode_conf, nk, 'rekey'),
                                          engine_kw={'max_wall_s': 600}))
+                    inst.append(Instance(f'initiator rekey response after the peer deleted the replaced SA |TS|={n} mode={mode_conf}', h_initiator,
+                                         (n, mode_conf, nk, 'rekey_deleted'), engine_kw={'max_wall_s': 600},
+                                         must_reach=[('installed', lambda o: o == ['initiator', 'installed'])]))
     inst.append(Instance('from_network/get_port round trip', h_port, ()))
     inst.append(Instance('get_port', h_getport, ()))
     return inst
